@@ -69,6 +69,7 @@ package armor
 //@   requires arinv(r) && disjoint(p, r.buf)
 //@   loop 1 invariant arinv(r) && r.err == nil && len(r.unread) == 0 && 0 <= removedWhitespace && removedWhitespace <= 1024 && issuffix(r.r.$rem, old(r.r.$rem)) && old(r.err) == nil && len(old(r.unread)) == 0
 //@   loop 1 invariant#wsbound r.started || len(old(r.r.$rem)) - len(r.r.$rem) <= 2 * removedWhitespace                              [C08 C14]
+//@   loop 1 invariant#begin (r.started && !old(r.started)) ==> lastbytes("Read$1",1,0) == "-----BEGIN AGE ENCRYPTED FILE-----"   [C05 C08]
 //@   loop 1 decreases len(r.r.$rem) + (r.started ? 0 : 1)
 //@   ensures#inv arinv(r)
 //@   ensures#n 0 <= n && n <= len(p)                                                                                               [C12 C14]
@@ -82,6 +83,11 @@ package armor
 //@   ensures#buffered len(old(r.unread)) > 0 ==> err == nil && n == min(len(p), len(old(r.unread))) && sub(bytes(p), 0, n) == sub(old(bytes(r.unread)), 0, n) && r.r.$rem == old(r.r.$rem)   [C08 C12]
 //@   call Decode#1 requires len(arg2) <= 64 && len(arg1) == 48 && arg0.$strictstd                                                    [C05 C08 C14]
 //@   call Decode#1 requires nocrlf(bytes(arg2))                                                                                     [C08]
+//@   call Decode#1 requires same(arg2, lastret("Read$1",2,0)) && rg(arg1) == rg(r.buf) && off(arg1) == 0                              [C01 C08]
+//@   call Read$2#1 requires lastbytes("Read$1",2,0) == "-----END AGE ENCRYPTED FILE-----"                                       [C05 C08]
+//@   call Read$2#2 requires lastbytes("Read$1",3,0) == "-----END AGE ENCRYPTED FILE-----"                                       [C05 C08]
+//@   ensures#begin (r.started && !old(r.started)) ==> lastbytes("Read$1",1,0) == "-----BEGIN AGE ENCRYPTED FILE-----"           [C05 C08]
+//@   ensures#data (len(old(r.unread)) == 0 && old(r.err) == nil && err == nil) ==> sub(bytes(p), 0, n) == sub(stdb64dec(lastbytes("Read$1",2,0)), 0, n) && bytes(r.unread) == sub(stdb64dec(lastbytes("Read$1",2,0)), n, n + len(r.unread)) && n + len(r.unread) == len(stdb64dec(lastbytes("Read$1",2,0)))   [C01 C08 C12]
 //@   modifies r.started, r.unread, r.buf, r.err, r.r.$rem, r.r.$bufd, r.r.$under.$rem, p[:]
 
 
